@@ -44,7 +44,8 @@ class World:
     ]
     rule = ("program = seeded list of set_rate (incl. re-assignment, zero, refused diagonal / out-of-range / non-real assignments), "
             "make_prop, propagate and prop_matrix (coarser steps, shifted and unaligned starts, non-zero start of the main axis, "
-            "perturbative corrections) ops on one shared RateMatrix (dim 2..6, swarm: generic, equal-rate chain (defective), cyclic "
+            "perturbative corrections, sub-axes of > 100 points, very long fine axes, axis shifted after construction, runs continued "
+            "from earlier results, storage replaced by another size, steps long on the scale of the rates) ops on one shared RateMatrix (dim 2..6, swarm: generic, equal-rate chain (defective), cyclic "
             "(complex spectrum), sparse, from data); non-trivial = >=1 accepted set_rate followed by >=1 propagate or prop_matrix; "
             "distinct = distinct event-log digests among non-trivial runs")
 
